@@ -254,12 +254,16 @@ def diskScenario (steps : List (Step Val)) : List GetObs :=
 
 /-! ## 3. cache keys -/
 
-/-- `_node_identity(node)` after the repair: definition hash, class name, output names, targets -/
+/-- `_node_identity(node)` after the repairs: definition hash, class name, output names, targets and
+(fallback repair) the gate's `fallback` target
+(`f"{definition_hash}:{class}:{outputs!r}:{targets!r}:{fallback!r}"`; `none` = `None`, which is also
+what every node without a fallback contributes). -/
 structure Ident where
   defHash : String
   cls : String
   outputs : List Name
   targets : List Target
+  fallback : Option Target
   deriving DecidableEq, Repr, Inhabited
 
 def insertKV (kv : Name × Val) : AL Val → AL Val
@@ -292,7 +296,21 @@ structure KeyEnv where
   hash : Key → Name
 
 def identOf (env : KeyEnv) (nd : NodeD) : Ident :=
-  { defHash := env.defHash nd, cls := className nd.kind, outputs := nd.outputs, targets := nd.targets }
+  { defHash := env.defHash nd, cls := className nd.kind, outputs := nd.outputs, targets := nd.targets,
+    fallback := nd.fallback }
+
+/-- the identity before the fallback repair: `fallback` is not part of it (the component is constantly
+`none`). The cached routing decision is the one *after* the fallback was applied (`HG.execRoute`), so two
+route gates over one function with equal targets and different fallbacks shared an entry and the second
+was served the first one's decision. Kept for the negative witness
+`HG.C09.fallback_collision_witness`. -/
+def identOfNoFallback (env : KeyEnv) (nd : NodeD) : Ident :=
+  { defHash := env.defHash nd, cls := className nd.kind, outputs := nd.outputs, targets := nd.targets,
+    fallback := .none }
+
+/-- the key before the fallback repair (`identOfNoFallback` in place of `identOf`) -/
+def keyOfNoFallback (env : KeyEnv) (nd : NodeD) (inputs : AL Val) : Name :=
+  env.hash (cacheKey (identOfNoFallback env nd) (toParams nd inputs))
 
 /-- `compute_cache_key(node, inputs)` after the rename repair: the inputs (keyed by the node's *current*
 input names) are first mapped back to the function's *original* parameter names
